@@ -10,3 +10,4 @@ open Model.C09
 #print axioms Model.newLog_rebuilds
 #print axioms Model.newLog_values
 #print axioms Model.inv_transfer
+#print axioms copy_equals_original
